@@ -9,6 +9,13 @@ pub fn main<C: Codec>() {
         std::process::exit(2);
     }
     let code = match args[1].as_str() {
+        "fuzzone" => {
+            // run one libFuzzer input (entropy tape) through a fuzz target: verif fuzzone <Cnn:name> <file>
+            let data = std::fs::read(args.get(3).map(|s| s.as_str()).unwrap_or("")).unwrap_or_default();
+            super::fuzz::run::<C>(&args[2], &data);
+            println!("fuzzone: no violation");
+            0
+        }
         "replay" => {
             let text = match std::fs::read_to_string(&args[2]) {
                 Ok(t) => t,
